@@ -58,6 +58,27 @@ MBOX_CORO = HEAD + """        mbox = std.Mailbox[Unsigned[{w}]]({args})
             self.got ^= True
 """
 
+MBOX_CORO2 = HEAD + """        mbox = std.Mailbox[Unsigned[{w}]]({args})
+
+        @std.sequential(std.Clock(self.clk))
+        def producer():
+            if self.send:
+                if mbox.is_clear():
+                    mbox.send(self.din)
+                    self.sent ^= True
+
+        @std.sequential(std.Clock(self.clk))
+        async def consumer():
+            await self.want
+            first = await mbox.receive()
+            self.dout <<= first
+            self.got ^= True
+            {between}
+            second = await mbox.receive()
+            self.dout <<= second
+            self.got ^= True
+"""
+
 FLAG_TWO = HEAD + """        flag = std.SyncFlag({args})
 
         @std.sequential(std.Clock(self.clk))
@@ -66,6 +87,24 @@ FLAG_TWO = HEAD + """        flag = std.SyncFlag({args})
                 if flag.is_clear():
                     flag.set()
                     self.sent ^= True
+
+        @std.sequential(std.Clock(self.clk))
+        def consumer():
+            if self.want:
+                if flag.is_set():
+                    flag.clear()
+                    self.got ^= True
+"""
+
+FLAG_UNGUARDED = HEAD + """        flag = std.SyncFlag({args})
+
+        @std.sequential(std.Clock(self.clk))
+        def producer():
+            if self.send:
+                # an unguarded set: it only counts as an event when the producer saw the flag clear;
+                # a set while the flag is set must have no effect
+                self.sent ^= flag.is_clear()
+                flag.set()
 
         @std.sequential(std.Clock(self.clk))
         def consumer():
@@ -101,7 +140,7 @@ def delay_args(tx, rx):
 
 def run(ck: common.Check, replay=None):
     ck.check_props("C15_Properties.v")
-    delays = [(0, 0), (1, 0), (0, 1), (1, 1)] if ck.tier == "quick" else [(t, r) for t in range(4) for r in range(4)]
+    delays = [(0, 0), (1, 0), (0, 1), (1, 1), (0, 2)] if ck.tier == "quick" else [(t, r) for t in range(4) for r in range(4)]
     designs, metas = [], []
     for tx, rx in delays:
         a = delay_args(tx, rx)
@@ -109,6 +148,14 @@ def run(ck: common.Check, replay=None):
         metas.append({"component": "Mailbox", "form": "two contexts", "tx_delay": tx, "rx_delay": rx, "payload": True})
         designs.append({"name": f"flag_two_t{tx}_r{rx}", "source": FLAG_TWO.format(w=1, args=a), "entity": "W"})
         metas.append({"component": "SyncFlag", "form": "two contexts", "tx_delay": tx, "rx_delay": rx, "payload": False})
+        designs.append({"name": f"flag_unguarded_t{tx}_r{rx}", "source": FLAG_UNGUARDED.format(w=1, args=a), "entity": "W"})
+        metas.append({"component": "SyncFlag", "form": "two contexts, unguarded set", "tx_delay": tx, "rx_delay": rx, "payload": False})
+        if rx >= 1 or ck.tier != "quick":
+            for bt, bsrc in (("b2b", "pass"), ("gap", "await cohdl.true")):
+                if ck.tier == "quick" and bt == "gap" and (tx, rx) != (1, 1):
+                    continue
+                designs.append({"name": f"mbox_coro2_{bt}_t{tx}_r{rx}", "source": MBOX_CORO2.format(w=2, args=a, between=bsrc), "entity": "W"})
+                metas.append({"component": "Mailbox", "form": "coroutine consumer with two receive sites (" + bt + ")", "tx_delay": tx, "rx_delay": rx, "payload": True})
         if ck.tier != "quick" or (tx, rx) in ((0, 0), (1, 1)):
             designs.append({"name": f"mbox_coro_t{tx}_r{rx}", "source": MBOX_CORO.format(w=2, args=a), "entity": "W"})
             metas.append({"component": "Mailbox", "form": "coroutine consumer (receive)", "tx_delay": tx, "rx_delay": rx, "payload": True})
